@@ -358,6 +358,10 @@ func (g *Gen) RequestOf(c int, forceKind string) *wire.Req {
 			// now and then the very action sent last, again, with other data: same entity, same name, same timestamp
 			if g.lastAct != nil && g.rnd.Intn(5) == 0 {
 				a = &wire.Action{Eid: g.lastAct.Eid, Name: g.lastAct.Name, Ts: g.lastAct.Ts, Data: g.smallBytes()}
+			} else if g.lastAct != nil && g.lastAct.Ts != nil && g.rnd.Intn(5) == 0 {
+				// ... or within the same second, a little earlier or later
+				a = &wire.Action{Eid: g.lastAct.Eid, Name: g.lastAct.Name, Data: g.smallBytes(),
+					Ts: &wire.Ts{Secs: g.lastAct.Ts.Secs, Nanos: nanosPool[g.rnd.Intn(len(nanosPool))]}}
 			}
 			g.lastAct = a
 			r.Act = a
@@ -646,8 +650,10 @@ func (g *Gen) pickConcurrent(k int) []int {
 			case "custom":
 				r = g.RequestOf(c, "custom")
 				r.Pids = nil
-				for p := 1; p <= g.w.know.maxPid[target]; p++ { // addressed: goes through BroadcastTo
-					r.Pids = append(r.Pids, uint32(p))
+				if g.rnd.Intn(2) == 0 { // to everybody (Broadcast), or addressed to each by id (BroadcastTo)
+					for p := 1; p <= g.w.know.maxPid[target]; p++ {
+						r.Pids = append(r.Pids, uint32(p))
+					}
 				}
 			default:
 				r = g.RequestOf(c, plan[c])
